@@ -281,7 +281,7 @@ def _argparse_table(fn: ast.FunctionDef) -> list[list[str]]:
     for n in ast.walk(fn):
         if isinstance(n, ast.Call) and isinstance(n.func, ast.Attribute) and n.func.attr == "add_argument":
             flags = [a.value for a in n.args if isinstance(a, ast.Constant)]
-            kws = sorted(f"{k.arg}={ast.unparse(k.value)}" for k in n.keywords if k.arg in ("default", "action", "dest", "nargs", "type", "choices", "required"))
+            kws = sorted(f"{k.arg}={ast.unparse(k.value)}" for k in n.keywords if k.arg in ("default", "action", "dest", "nargs", "type", "choices", "required", "const"))
             rows.append((n.lineno, flags + ["|"] + kws))
     return [r for _, r in sorted(rows)]
 
